@@ -193,9 +193,13 @@ func c04Mutants(s *gen.Shape, i int, r *prng.R) []c04Mut {
 		j := j
 		add("output-value", relOut(j, i), fmt.Sprintf("output %d value bit", j), func(m *gen.Shape) int { m.Outs[j].Sats ^= 1 << uint(r.Intn(64)); return i })
 		add("output-script", relOut(j, i), fmt.Sprintf("output %d script changed", j), func(m *gen.Shape) int {
-			if len(m.Outs[j].Script) > 0 && r.Bool() {
+			switch l := len(m.Outs[j].Script); {
+			case l > 0 && r.Chance(1, 3): // the very last byte, the one before it, or the first: where a size slip would cut
+				k := []int{l - 1, max(l-2, 0), 0}[r.Intn(3)]
+				m.Outs[j].Script[k] ^= 1 << uint(r.Intn(8))
+			case l > 0 && r.Bool():
 				flipBit(m.Outs[j].Script, r)
-			} else {
+			default:
 				m.Outs[j].Script = append(m.Outs[j].Script, byte(r.Intn(256)))
 			}
 			return i
@@ -894,7 +898,7 @@ func init() {
 		}
 		c.Phase("large-scripts-in-the-spending-tx") // an output (or another input's unlocking script) longer than the readers' 16 KiB chunk, not a multiple of it, content not repeating
 		n = 0
-		for _, size := range []int{16384, 16385, 20000, 32768, 32769, 40000} {
+		for _, size := range []int{16384, 16385, 20000, 32768, 32769, 40000, 65535, 65536, 65537, 70000} { // (from 65536 on the output's length prefix takes five bytes)
 			for ti, t := range []uint8{0x41, 0x01, 0x43, 0x03, 0xC1, 0x82} {
 				n++
 				if !c.Case(n) {
